@@ -50,7 +50,14 @@ class PatchList:
 
     def clear(self) -> None:
         """Removes collected patches but leaves settings intact"""
+        # patches whose type or settings were changed by the user stay (without their sides)
+        modified = [patch for patch in self.patches.values() if patch.kind != "patch" or len(patch.settings) > 0]
+
         self.patches.clear()
+
+        for patch in modified:
+            patch.sides.clear()
+            self.patches[patch.name] = patch
 
     @property
     def description(self) -> str:
